@@ -35,7 +35,7 @@ func TestDumpCase(t *testing.T) {
 		dir = os.TempDir()
 	}
 	j := emitJSON(a.Tree)
-	y, _ := emitYAML(a.Tree)
+	y, _ := emitYAML(a.Tree, c.PlainKeys)
 	_ = os.WriteFile(filepath.Join(dir, jsonName), j, 0o644)
 	_ = os.WriteFile(filepath.Join(dir, yamlName), y, 0o644)
 	vj, _ := execute(request{Name: jsonName, Data: j, Strict: c.Strict})
